@@ -158,5 +158,7 @@ def obligations(tier: str):
             add(f"{rep}_f0_crossed", fixture="f0", rep=rep, decider="grow", max_depth=2 if rep != "dsge" else 3, gene_length=3 if rep == "ge" else 2, ops=["crossover"])
         add(f"{rep}_individual_f1", h="individual", fixture="f1", rep=rep, decider="grow", max_depth=2 if rep != "dsge" else 3, gene_length=gl)
     add("stack_f1", fixture="f1", rep="stack", gene_length=3 if not T else 4, failures_limit=1, gene_fuel=8 if not T else 12, timeout=150)
+    add("stack_f1p_postponed_annotations", fixture="f1p", rep="stack", gene_length=3 if not T else 4, failures_limit=1, gene_fuel=8 if not T else 12, timeout=150)
+    add("ge_f1p_postponed_annotations", fixture="f1p", rep="ge", decider="grow", max_depth=2, gene_length=4)
     add("stack_f0", fixture="f0", rep="stack", gene_length=3 if not T else 4, failures_limit=1, gene_fuel=8 if not T else 12, timeout=150)
     return obs
